@@ -93,4 +93,12 @@ CHECKS = {
                  "prefixes: SyntaxError iff no prefix is a sentence, every tree valid, every derivation present exactly once.",
         "note": _GLR_NOTE + " The LR half of C17 (Parser with consume_input=False) is decided by the LR corpus once built.",
     },
+    "C18": {
+        "engine": "tlc-trace", "design_ref": "DESIGN.md 3.4, 3.5 (FilterCall), 7 C18",
+        "technique": "FilterCheck.tla: recorded filter call logs vs marks and returned trees (FilterInitOnce, FilterOnlyMarked, AcceptedTaken, RejectedNotTaken, AcceptAll = NoFilter, RejectP = NoFilter minus p); Prec.tla for precedence-encoding filters, TLC",
+        "level": "For every explored operator grammar, mark subset, parser kind, policy and expression the recorded protocol is checked in TLA+: one all-None initial call, "
+                 "only marked decisions asked, every marked decision present in a returned tree was asked with its production and sub-result spans and accepted, nothing "
+                 "rejected is taken, accept-all equals no filter, reject-p equals the no-filter forest minus trees using p, a precedence-encoding filter yields the precedence-correct tree.",
+        "note": "Trusted: TLC, the recording filter (harness/stage_filter.Recorder), tree projection. Bounded: up to 3 operators, expressions <= 9 tokens, GLR forests up to 30 trees.",
+    },
 }
